@@ -367,7 +367,10 @@ def run_check(pid, tier, seed, jobs):
         "coverage": {
             "states": max(1, states),
             "transitions": max(1, n_obl),
-            "traces_validated_against_impl": validated + replays_done,
+            # concrete warm-up runs (real code vs reference on default values, no tracer) + stand-in validation runs
+            # against the real libraries + counterexample replays
+            "traces_validated_against_impl": validated + replays_done + sum(1 for r in results if r.get("warmup") == "ok"),
+            "concrete_warmup_runs": sum(1 for r in results if r.get("warmup") in ("ok", "cut")),
             "samples": samples or [{"note": "no obligations"}],
             "exhaustive": False,
             "obligations": n_obl,
